@@ -132,6 +132,17 @@ func (dps *DefaultPathStrategy) GetRequestInfo(urlCtx base.UrlContext, rootOutPa
 	return
 }
 
+// IsInsideRootOutPath 判断`path`是否位于`rootOutPath`目录之内（不包括`rootOutPath`自身）
+//
+// 流名称以及http请求中的路径都是由对端指定的，比如".."，拼接出来的路径不能跑到配置的根目录之外
+func IsInsideRootOutPath(rootOutPath string, path string) bool {
+	rel, err := filepath.Rel(rootOutPath, path)
+	if err != nil {
+		return false
+	}
+	return rel != "." && rel != ".." && !strings.HasPrefix(rel, ".."+string(filepath.Separator))
+}
+
 // GetMuxerOutPath <rootOutPath>/<streamName>
 func (*DefaultPathStrategy) GetMuxerOutPath(rootOutPath string, streamName string) string {
 	return filepath.Join(rootOutPath, streamName)
